@@ -22,14 +22,71 @@ def build_binary(ctx):
     return (out if rc == 0 else None), log, dt
 
 
-def run_inproc(ctx, tool, seed, tier, tag="inproc"):
+SPEC_KEYS = ("k", "kind", "steps", "handlers", "handler_fails", "stop_at_ms", "hold_ms")
+
+
+def run_inproc(ctx, tool, seed, tier, tag="inproc", specs=None):
     work = os.path.join(ctx.scratch, tag + "-work")
     os.makedirs(work, exist_ok=True)
     p = os.path.join(ctx.scratch, tag + ".jsonl")
-    rc, out, dt = vlib.run_tool(tool, ["inproc", p, tier, work], env_extra={"VERIF_SEED": str(seed)}, timeout=3000)
+    args = ["inproc", p, tier, work]
+    if specs is not None:
+        sp = os.path.join(ctx.scratch, tag + "-specs.jsonl")
+        with open(sp, "w") as f:
+            for c in specs:
+                f.write(json.dumps({k: c[k] for k in SPEC_KEYS if k in c}) + "\n")
+        args.append(sp)
+    rc, out, dt = vlib.run_tool(tool, args, env_extra={"VERIF_SEED": str(seed)}, timeout=3000)
     if rc != 0:
         return None, out, dt
     return vlib.read_jsonl(p), out, dt
+
+
+def unknown_classes(ctx, c):
+    out = [cls["class"] for _, cls in sl.monitor_inproc(c) if ctx.match_known(cls, "monitor") is None]
+    out += [cls["class"] for _, _, cls in sl.monitor_prefixes(c) if ctx.match_known(cls, "monitor") is None]
+    return set(out)
+
+
+def shrink(ctx, tool, c, budget=10):
+    """greedy deletion (last step, handlers, failure scripts, retries, long holds) while a monitor of the same class still
+    fails on a re-run of the reduced case"""
+    want = unknown_classes(ctx, c)
+    if not want:
+        return c, 0
+    cur = c
+    runs = 0
+
+    def variants(x):
+        x = {k: json.loads(json.dumps(x[k])) for k in SPEC_KEYS if k in x}
+        if len(x["steps"]) > 1:
+            y = json.loads(json.dumps(x))
+            last = y["steps"].pop()["name"]
+            for st in y["steps"]:
+                st["depends"] = [d for d in st["depends"] if d != last]
+            yield y
+        if x["handlers"]:
+            y = json.loads(json.dumps(x))
+            y["handlers"], y["handler_fails"] = [], {}
+            yield y
+        for i, st in enumerate(x["steps"]):
+            if st["fails"] or st["rlimit"] or not st["pre"] or st["cof"] or st["cos"]:
+                y = json.loads(json.dumps(x))
+                y["steps"][i].update({"fails": 0, "rlimit": 0, "pre": True, "cof": False, "cos": False})
+                yield y
+
+    progress = True
+    while progress and runs < budget:
+        progress = False
+        for v in variants(cur):
+            if runs >= budget:
+                break
+            runs += 1
+            res, _, _ = run_inproc(ctx, tool, ctx.seed, "quick", tag="shrink%d" % runs, specs=[v])
+            if res and not res[0].get("infra") and unknown_classes(ctx, res[0]) & want:
+                cur, progress = res[0], True
+                break
+    return cur, runs
 
 
 def slim(c):
@@ -65,11 +122,20 @@ CODES = {1: "a persisted line's overall status is not Scheduler.Status of its no
          8: "a live answer is not a state from which the final state is reachable"}
 
 
-def check_inproc(ctx, cases, stats, coq_name="cases_c08"):
+def check_inproc(ctx, cases, stats, coq_name="cases_c08", tool=None):
     """monitors + model correspondence on in-process cases; returns number of monitor failures (unknown ones included)"""
     nfail = 0
     good = []
+    shrunk = 0
     for c in cases:
+        if tool is not None and shrunk < 2 and not c.get("infra") and unknown_classes(ctx, c):
+            # a failing input nobody knows yet: report it shrunk
+            shrunk += 1
+            small, runs = shrink(ctx, tool, c)
+            stats["shrink_runs"] = stats.get("shrink_runs", 0) + runs
+            if small is not c:
+                for what, cls in sl.monitor_inproc(small):
+                    ctx.fail("monitor", what, dict(slim(small), shrunk_from_case=c["k"]), cls=cls)
         if c.get("infra"):
             ctx.fail("correspondence", "driver could not run a case: " + c["infra"], slim(c), cls={"class": "infra"})
             continue
@@ -145,12 +211,24 @@ def run(ctx):
     stats = {"monitor_classes": {}, "prefix_states": 0, "live_answers": 0, "lines": 0, "kills": 0, "not_killed": 0, "by_how": {},
              "boundaries": {}, "reported_after_kill": {}}
     t0 = time.time()
+    # ---- corpus: minimised past failures first ------------------------------------------------------------------------
+    corpus = os.path.join(vlib.VERIF, "corpus", "C08.jsonl")
+    if os.path.exists(corpus):
+        specs = vlib.read_jsonl(corpus)
+        for i, sp in enumerate(specs):
+            sp["k"] = 9000 + i
+        res, out, _ = run_inproc(ctx, tool, ctx.seed, "quick", tag="corpus", specs=specs)
+        if res is None:
+            ctx.fail("correspondence", "status driver failed on the corpus", {"log": out[-2000:]})
+        else:
+            check_inproc(ctx, res, stats, coq_name="cases_c08_corpus")
+            stats["corpus_cases"] = len(res)
     # ---- (i) in-process agent cases --------------------------------------------------------------------------------
     cases, out, dt = run_inproc(ctx, tool, ctx.seed, ctx.tier)
     if cases is None:
         ctx.fail("correspondence", "status driver failed", {"log": out[-2000:]})
         return ctx.finish()
-    check_inproc(ctx, cases, stats)
+    check_inproc(ctx, cases, stats, tool=tool)
     t1 = time.time()
     # ---- (ii) the real binary, killed ------------------------------------------------------------------------------
     rng = vlib.Rng(ctx.seed)
@@ -174,7 +252,7 @@ def run(ctx):
                        "preconditions, continueOn, handlers, optional stop request, optional held snapshot write); non-trivial = at least "
                        "one dependency edge; distinct by (kind, steps, scripts, handlers).  crash: one case = the real binary on a "
                        "scenario DAG killed at one point; distinct by (scenario, system-call boundary hit | time offset)")
-    ctx.cov["inproc"] = {"cases": len(cases), "kinds": kinds, "persisted_lines": stats["lines"], "live_answers": stats["live_answers"],
+    ctx.cov["inproc"] = {"cases": len(cases), "corpus_cases": stats.get("corpus_cases", 0), "kinds": kinds, "persisted_lines": stats["lines"], "live_answers": stats["live_answers"],
                          "synthesized_kill_prefixes": stats["prefix_states"], "seconds": round(t1 - t0, 1),
                          "observed_not_judged": {"status queries failing while Close compacts the history (original unlinked under the reader)": stats.get("read_errors_during_compaction", 0)}}
     ctx.cov["crash"] = {"runs": len(crash), "killed": stats["kills"], "ended_before_the_kill": stats["not_killed"], "by_how": stats["by_how"],
